@@ -21,7 +21,10 @@ import (
 const evalFlagField = "isEvaluated"
 
 // flagSetters: functions of pkg that store constant true into <param>.isEvaluated; value = parameter index.
-func flagSetters(p *Prog, pkgPath string) map[*ssa.Function]int {
+func flagSetters(p *Prog, pkgPath string) map[*ssa.Function]int { return flagStorers(p, pkgPath, "true") }
+
+// flagStorers: functions of pkg that store the given constant into <param>.isEvaluated; value = parameter index.
+func flagStorers(p *Prog, pkgPath string, val string) map[*ssa.Function]int {
 	out := map[*ssa.Function]int{}
 	for _, fn := range p.Funcs {
 		pk := FuncPkg(fn)
@@ -39,7 +42,7 @@ func flagSetters(p *Prog, pkgPath string) map[*ssa.Function]int {
 					continue
 				}
 				c, ok := st.Val.(*ssa.Const)
-				if !ok || c.Value == nil || c.Value.String() != "true" {
+				if !ok || c.Value == nil || c.Value.String() != val {
 					continue
 				}
 				if pm, ok := fa.X.(*ssa.Parameter); ok {
@@ -107,6 +110,7 @@ func pointees(v ssa.Value) []string {
 func RunStateReset(p *Prog, r *Report) {
 	pkgPath := modPath + "/std/math/emulated"
 	setters := flagSetters(p, pkgPath)
+	clearers := flagStorers(p, pkgPath, "false")
 	if len(setters) == 0 {
 		r.Fail("UNRESOLVED", "-", "-", "state-reset:setter", "-", "no function storing true into Element.isEvaluated found (confirmed: evalWithChallenge)")
 		return
@@ -165,6 +169,23 @@ func RunStateReset(p *Prog, r *Report) {
 			ti.clean = fn
 			for _, b := range fn.Blocks {
 				for _, ins := range b.Instrs {
+					// a helper that clears the flag of its parameter (resetEval(e)) clears it for the argument
+					if c, ok := ins.(*ssa.Call); ok {
+						if cal := c.Call.StaticCallee(); cal != nil {
+							idx, ok := clearers[cal]
+							if !ok {
+								if o := cal.Origin(); o != nil {
+									idx, ok = clearers[o]
+								}
+							}
+							if ok && idx < len(c.Call.Args) {
+								for _, d := range pointees(c.Call.Args[idx]) {
+									ti.cleaned[d] = true
+								}
+							}
+						}
+						continue
+					}
 					st, ok := ins.(*ssa.Store)
 					if !ok {
 						continue
